@@ -208,6 +208,23 @@ def scenarios(name, over, rng, thorough):
                 sc['latency'] = la
                 sc.update(copy.deepcopy(pl))
                 jobs += S.det_schedules(sc, 0, rng)
+    # the LAST request fails while a cancel arrives around it (before, during - the
+    # request is slow - or after): whichever of the two is recorded first stays
+    if t0['kind'] == 'download':
+        # (only a download to a path has a final task that can fail: the rename)
+        last = [{'on': 'fs_rename', 'nth': 1, 'x': 0}] if t0.get('dst', 'path') == 'path' else None
+        la = []
+    else:
+        last = [{'on': 's3', 'seq': ncalls, 'x': 0}]
+        la = [{'op': [o for o in ops if o != 'AbortMultipartUpload'][-1], 'phase': 'begin',
+               'nth': 1, 'd': 1.0}]
+    for g in (range(2, steps + 6, 2 if thorough else 3) if last else ()):
+        sc = copy.deepcopy(sc0)
+        sc['faults'] = copy.deepcopy(last)
+        sc['cancel'] = {'how': 'future', 'x': 0, 'gate': g}
+        if la:
+            sc['latency'] = copy.deepcopy(la)
+        jobs += S.det_schedules(sc, 0, rng)
     return sc0, jobs
 
 
